@@ -417,26 +417,23 @@ def analyse(cases, impl, model, full, survivors=None):
             continue
         if af["res"] == "unsupported":
             continue
-        # --- known finding (C01): a concurrent iterator advanced before into_par(), parallel map-only
-        # ordered collect: positions are written at the original index, the call panics
+        # --- known findings on concurrent iterators advanced before into_par() (the model is faithful
+        # here: theorems C01_pre_advanced_refuted / C02_pre_advanced_index_refuted):
+        #  C01: the parallel map-only ordered collect writes at the original index into a bag sized for
+        #       the remaining elements and panics;
+        #  C02: the sequential path reports the position among the remaining elements, the parallel
+        #       paths the position in the original source
         src_ = cf["shape"].split("_")[0]
-        if (src_ in gen_harness.PRE_SOURCES and int(cf.get("pre", "0")) > 0 and af["res"] == "P"
-                and af.get("kind") == "Map" and term in ("cv", "cs", "ci") and nt2 != 1
-                and mf["res"].startswith("L:") and mf["res"] != "L:-"):
-            out["known"]["C01_pre_map_col"] = out["known"].get("C01_pre_map_col", 0) + 1
-            out["known"].setdefault("C01_pre_map_col_sample", c[:300])
-            continue
-        # --- known finding (C02): on such a source the sequential path reports the position among the
-        # remaining elements, the parallel path the position in the original source
-        if (src_ in gen_harness.PRE_SOURCES and int(cf.get("pre", "0")) > 0 and nt2 == 1 and term in ("findix", "firstix")
-                and af["res"].startswith("I:") and mf["res"].startswith("I:") and af["res"] != "I:-" and mf["res"] != "I:-"):
-            ia, va = af["res"].split(":")[1:3]
-            im, vm = mf["res"].split(":")[1:3]
-            if va == vm and int(ia) + int(cf["pre"]) == int(im):
+        if src_ in gen_harness.PRE_SOURCES and int(cf.get("pre", "0")) > 0 and "panic" not in cf:
+            if (mf["res"] == "P" and af["res"] == "P" and mf.get("kind") == "Map" and term in ("cv", "cs", "ci")
+                    and mf.get("seq") == "0"):
+                out["known"]["C01_pre_map_col"] = out["known"].get("C01_pre_map_col", 0) + 1
+                out["known"].setdefault("C01_pre_map_col_sample", c[:300])
+                continue
+            if (term in ("findix", "firstix") and mf.get("seq") == "1" and mf["res"].startswith("I:")
+                    and mf["res"] != "I:-" and af["res"] == mf["res"]):
                 out["known"]["C02_pre_seq_index"] = out["known"].get("C02_pre_seq_index", 0) + 1
                 out["known"].setdefault("C02_pre_seq_index_sample", c[:300] + " -> " + af["res"])
-                af = dict(af)
-                af["res"] = mf["res"]
         # --- K3 result correspondence (C01-C04, C06, C07, C09, C15b)
         if af["res"] != mf["res"]:
             tie = False
